@@ -38,11 +38,13 @@ def decode (tid : Nat) (p : Pkt) : Option Cmd :=
   | _ => none
 
 def Target.load (t : Target) (page addr : Nat) (bytes : List UInt8) : Target :=
-  { t with buf := fun q o =>
-      if q = page ∧ addr ≤ o ∧ o < addr + bytes.length then bytes.getD (o - addr) 0 else t.buf q o }
+  { buf := fun q o =>
+      if q = page ∧ addr ≤ o ∧ o < addr + bytes.length then bytes.getD (o - addr) 0 else t.buf q o,
+    flash := t.flash }
 
 def Target.writeFlash (t : Target) (bp fp n : Nat) : Target :=
-  { t with flash := fun q o => if fp ≤ q ∧ q < fp + n then t.buf (bp + (q - fp)) o else t.flash q o }
+  { buf := t.buf,
+    flash := fun q o => if fp ≤ q ∧ q < fp + n then t.buf (bp + (q - fp)) o else t.flash q o }
 
 /-- What happens to one transmission of a flash-write command: whether it reaches the target (which then
 executes it), which packet (if any) comes back, and whether that packet arrives only after the receive
@@ -74,6 +76,9 @@ executed the command.  Anything else may come back (negative replies, unrelated 
 def Outcome.Genuine (tid : Nat) (o : Outcome) : Prop :=
   ∀ p, o.reply = some p → Positive tid p → o.exec = true
 
+/-- every outcome of the script is genuine -/
+def ScriptGenuine (tid : Nat) (s : List Outcome) : Prop := ∀ o ∈ s, o.Genuine tid
+
 structure Env where
   tgt : Target
   script : List Outcome      -- outcomes of the successive flash-write transmissions; exhausted: `okNow`
@@ -89,7 +94,8 @@ def targetPeer (tid : Nat) : Peer Env where
   onSend e p :=
     match decode tid p with
     | none => (e, [])
-    | some (.load page addr bytes) => ({ e with tgt := e.tgt.load page addr bytes }, [])
+    | some (.load page addr bytes) =>
+      ({ tgt := e.tgt.load page addr bytes, script := e.script, lateQ := e.lateQ }, [])
     | some (.write bp fp n) =>
       let o := (nextOutcome tid e.script).1
       let rest := (nextOutcome tid e.script).2
@@ -99,6 +105,24 @@ def targetPeer (tid : Nat) : Peer Env where
       | some r =>
         if o.late then ({ tgt := tgt, script := rest, lateQ := e.lateQ ++ [r] }, [])
         else ({ tgt := tgt, script := rest, lateQ := e.lateQ }, [r])
-  onWaitDone e := ({ e with lateQ := [] }, e.lateQ)
+  onWaitDone e := ({ tgt := e.tgt, script := e.script, lateQ := [] }, e.lateQ)
+
+/-! ### vocabulary for the theorems -/
+
+/-- transmit a list of packets in order -/
+def sendAll {σ : Type} (P : Peer σ) (L : Link σ) (pkts : List Pkt) : Link σ := pkts.foldl (Link.send P) L
+
+/-- the load-buffer packet of the protocol: header 0xFF, `(tid, 0x14, page, addr)` little-endian, then the bytes -/
+def loadPkt (tid page addr : Nat) (bytes : List UInt8) : Pkt :=
+  ⟨0xFF, [UInt8.ofNat tid, 0x14] ++ leBytes 2 page ++ leBytes 2 addr ++ bytes⟩
+
+/-- consecutive load-buffer packets carrying `chunks` at a running address starting from `addr` -/
+def loadPkts (tid page : Nat) : Nat → List (List UInt8) → List Pkt
+  | _, [] => []
+  | addr, c :: cs => loadPkt tid page addr c :: loadPkts tid page (addr + c.length) cs
+
+/-- the flash-write packet of the protocol: `(tid, 0x18, buffer page, flash page, page count)` -/
+def writePkt (tid bp fp n : Nat) : Pkt :=
+  ⟨0xFF, [UInt8.ofNat tid, 0x18] ++ leBytes 2 bp ++ leBytes 2 fp ++ leBytes 2 n⟩
 
 end CfVerif.C12
